@@ -431,6 +431,14 @@ func run(out, tier string, seed int64) {
 	}
 	// fixed deep nestings (beyond any small recursion guard), arrays and objects alternating
 	vals = append(vals, plainNested(33), plainNested(48), plainNested(64), plainNested(100))
+	// objects with many members (17, 40, 300): member order is canonical whatever the size
+	for _, n := range []int{17, 40, 300} {
+		o := values.NewObject()
+		for i := 0; i < n; i++ {
+			o.Set(values.NewString(fmt.Sprintf("k%03d", (i*7)%n)), values.NewInt(i))
+		}
+		vals = append(vals, o, Arr(o))
+	}
 	for i := 0; i < nRandom; i++ {
 		vals = append(vals, g.value(4))
 	}
